@@ -3,6 +3,7 @@
 # 1. (if a worktree is given) confirm the seeded change in the scratch worktree:
 #    demo exits 1 with the change and 0 without it, the 301 pinned tests still pass;
 #    store patch.diff + demo under /verif/seeded/<name>/
+#    (VERIFY_ONLY=1: stop here)
 # 2. apply the patch to /repo, run the check, undo the patch straight afterwards.
 set -u
 ID=$1; NAME=$2; WT=${3:-}; shift; shift; [ $# -gt 0 ] && shift
@@ -19,6 +20,7 @@ if [ -n "$WT" ]; then
   ( cd $WT && timeout 900 /venv/bin/python -m pytest -q -p no:cacheprovider --timeout=900 --continue-on-collection-errors 2>&1 | tail -1 > $D/tests_with.txt )
   echo "demo with: $(tail -1 $D/demo_with.txt)  without: $(tail -1 $D/demo_without.txt)  tests: $(cat $D/tests_with.txt)"
 fi
+[ -n "${VERIFY_ONLY:-}" ] && exit 0
 if [ -n "$(git -C /repo status --porcelain)" ]; then echo "/repo not clean"; exit 3; fi
 git -C /repo apply $D/patch.diff || exit 3
 start=$(date +%s)
